@@ -59,7 +59,7 @@ pub fn run(c: &Case) -> Outcome {
     if !c.endpack && !endb.is_empty() { script.push(Act::Send(endb.clone())); }
     match c.end.as_str() { "notify" => { script.push(Act::CloseNotify); script.push(Act::Pause(50)); script.push(Act::Close); } "close" => script.push(Act::Close), _ => {} }
     let cfg = Cfg { w: 800, h: 600, lay: 0x409, name: "rdp-rs".into(), dom: "d".into(), user: "u".into(), pw: "p".into(), hash: false, ra: false, blank: false, auto: false, nla: false, check: false };
-    let srv = SrvCfg { sel: 0, id: 1, uid: 1004, version: 0x80004, license_new: false, share: 0x103ea, caps: conn::default_caps(), source: b"RDP\0".to_vec(), chal_flags: 0, inputs: vec![], script, reactivate: None, reuse: 0, jrefuse: 0 };
+    let srv = SrvCfg { sel: 0, id: 1, uid: 1004, version: 0x80004, license_new: false, share: 0x103ea, caps: conn::default_caps(), source: b"RDP\0".to_vec(), chal_flags: 0, inputs: vec![], script, reactivate: None, reuse: 0, jrefuse: 0, ber: 0 };
     let (a, b) = UnixStream::pair().expect("socketpair");
     let fd = a.as_raw_fd() as usize;
     let rawlog = Arc::new(Mutex::new(vec![]));
